@@ -22,8 +22,10 @@ def run(e, R, tier):
         L.r_wake_clear,
         L.r_own_resolve,
         L.r_drop_resolves,
+        L.r_callback_lock,
         L.r_cancel_safe,
         L.r_mgr_exit,
+        L.r_iter_snapshot,
         L.r_nulled,
         L.r_mgr_self,
         L.r_poll,
@@ -32,6 +34,7 @@ def run(e, R, tier):
         C.r_feeder,
         C.r_feeder_hook,
         B.r_waitset,
+        B.r_broken_order,
         B.r_mgr_total,
         Rt.r_once,
     ])
